@@ -1,5 +1,5 @@
 """Which rules and witnesses decide which property."""
-from . import shared_state, surface, entry, tables, dirflow, precision, gates, kbound, primw, symbound, smallguard
+from . import shared_state, surface, entry, tables, dirflow, precision, gates, kbound, primw, symbound, smallguard, scratch
 
 RULES = {
     "R-NOCELL": shared_state.r_nocell,
@@ -36,6 +36,8 @@ RULES = {
     "R-WHOCALLS": primw.r_whocalls,
     "R-SYMBOUND": symbound.r_symbound,
     "R-SMALLGUARD": smallguard.r_smallguard,
+    "R-ZEROFILL": scratch.r_zerofill,
+    "R-SCRATCHKIND": scratch.r_scratchkind,
 }
 
 PROPS = {
@@ -202,6 +204,25 @@ PROPS = {
         "decides": "SIMD planners decline T not in {f32,f64}; portable code needs only the public bound, ring ops and from_f64/from_usize constants",
         "does_not_decide": "that the planned transform equals the DFT exactly in exact arithmetic",
         "assumptions": ["x86_64 non-test code"],
+    },
+    "C08": {
+        "level": "other",
+        "rules": ["R-ENTRY", "R-HELPER", "R-ZEROFILL", "R-SCRATCHKIND"],
+        "witnesses": [],
+        "explanation": "Decides three structural clauses of 'scratch is pure workspace', each a necessary condition, for every transform, length and call shape: "
+                       "(1) a longer scratch is indistinguishable from one of exactly the advertised length -- every entry point passes the matching scratch getter "
+                       "to its validating helper (R-ENTRY) and every helper re-slices the scratch to exactly that length before any chunk function sees it "
+                       "(R-HELPER trim), so no kernel can observe the surplus (several kernels compare or assert scratch lengths); "
+                       "(2) R-ZEROFILL: both Bluestein implementations overwrite the padding of their inner buffer -- which lives in the caller's scratch -- with zeros on "
+                       "every path to the inner FFT (zero store through an iterator/index over the same buffer, fill, SIMD zero store, or a callee that does so on all paths); "
+                       "(3) R-SCRATCHKIND: whenever a kernel hands part of the caller's scratch to an inner transform as that transform's scratch, the inner transform's "
+                       "requirement of the matching kind (in-place / out-of-place / immutable) is consulted when the advertised length is computed -- in the formula that "
+                       "initialises the value the getter returns, or in a panicking guard of the constructor that bounds it (the *Small algorithms) -- so no formula asks the "
+                       "wrong transform or the wrong kind. NOT decided: that the advertised size suffices (arithmetic over run-time lengths with max/if), and that every "
+                       "scratch or output element is written before it is read (bit-for-bit independence from initial contents beyond the Bluestein padding).",
+        "decides": "longer scratch == exact scratch (trim); Bluestein padding zero-filled on every call; advertised-length formulas consult the matching requirement of every inner transform that receives scratch",
+        "does_not_decide": "sufficiency of the advertised sizes (relational arithmetic); write-before-read of whole buffers, i.e. independence from initial scratch/output contents in general",
+        "assumptions": ["x86_64 non-test code", "inner transforms are fields of type Arc<dyn Fft<T>> (one level of struct nesting)"],
     },
     "C03": {
         "level": "other",
